@@ -195,15 +195,29 @@ pub fn generate(seed: u64, n: usize, _thorough: bool, _corpus: Option<&str>) -> 
         out.push(pipe_case(&mut r));
         if i % 2 == 0 { out.push(data_doors(&mut r)); }
     }
+    // fixed-size blocks with their OWN generators (independent of how much randomness the streams above consume)
+    let mut rg = Rng::new(seed ^ 0x6a9d_0055_u64).fork();
+    for k in 0..(if n >= 2000 { n / 16 } else { GAP_BLOCK }) { out.push(gap_doors(&mut rg, k)); }
+    // scripted linear histories: the call patterns whose ORDER matters, every run
+    let mut rh = Rng::new(seed ^ 0x5c217_7ed_u64).fork();
+    for k in 0..(if n >= 2000 { n / 12 } else { 36 }) { out.extend(history_cases_with(&mut rh, Some(k))); }
+    // the TRUTH TABLES of every connective through the method / operator forms, twice (the receiver form - bare handle or
+    // expression - is drawn per probe): 12 connective shapes x 8 value pairs x 3
+    let mut rt = Rng::new(seed ^ 0x7ab1e_u64).fork();
+    for _rep in 0..3 { for kind in 0..12 { for pq in [[0.0, 1.0], [1.0, 0.0], [0.0, 0.0], [1.0, 1.0], [0.0, 2.0], [-1.0, 0.0], [0.0, -1.0], [3.0, 0.0]] {
+        if let Some(c) = eval_probe_with(&mut rt, Some((kind, pq))) { out.push(c); } } } }
     out
 }
 
 /// `BuilderSolution::eval` at a CHOSEN point: variables are pinned by `v = c` rows, then an arbitrary
 /// expression is evaluated at the solution and compared bit-exactly with the Lean `evalExpr`.
-fn eval_probe(r: &mut Rng) -> Option<Case> {
+fn eval_probe(r: &mut Rng) -> Option<Case> { eval_probe_with(r, None) }
+
+/// `fixed = Some((kind, [p, q]))`: the connective `kind` applied to the handles of `p` and `q` at exactly these values
+fn eval_probe_with(r: &mut Rng, fixed: Option<(usize, [f64; 2])>) -> Option<Case> {
     let names: Vec<String> = ["p", "q", "s"].iter().map(|x| x.to_string()).collect();
     let ds: Vec<VarDecl> = names.iter().map(|n| VarDecl { name: n.clone(), ty: VariableType::IntegerRange(-4, 4) }).collect();
-    let vals: Vec<f64> = if r.chance(1, 2) { (0..3).map(|_| *r.pick(&[0.0, 1.0, 0.0, 1.0, 2.0, -1.0])).collect() } else { (0..3).map(|_| r.range(-4, 4) as f64).collect() };
+    let vals: Vec<f64> = if let Some((_, pq)) = fixed { vec![pq[0], pq[1], 1.0] } else if r.chance(1, 2) { (0..3).map(|_| *r.pick(&[0.0, 1.0, 0.0, 1.0, 2.0, -1.0])).collect() } else { (0..3).map(|_| r.range(-4, 4) as f64).collect() };
     let mut b = ModelBuilder::new();
     let mut handles = IndexMap::new();
     for d in &ds { handles.insert(d.name.clone(), b.add_var(d.name.clone(), d.ty)); }
@@ -214,8 +228,15 @@ fn eval_probe(r: &mut Rng) -> Option<Case> {
     let sol = b.solve_with(Auto).ok()?;
     let cfg = ModelCfg { max_vars: 3, depth: 3, logic: true, piecewise: true, unbounded: false, fractional: true, strict_cmp: false, hostile: false };
     // numeric and logic operators over ALL variables (truthiness of non-0/1 values included: eval_expr is total)
-    let connective = r.chance(1, 3);
-    let e = if connective {
+    let connective = fixed.is_some() || r.chance(1, 3);
+    let e = if let Some((kind, _)) = fixed {
+        let (p, q) = (Box::new(Exp::Variable("p".into())), Box::new(Exp::Variable("q".into())));
+        match kind {
+            0 => Exp::Iff(p, q), 1 => Exp::Implies(p, q), 2 => Exp::Xor(p, q), 3 => Exp::BinOp(BinOp::And, p, q), 4 => Exp::BinOp(BinOp::Or, p, q),
+            5 => Exp::BinOp(BinOp::Iff, p, q), 6 => Exp::BinOp(BinOp::Implies, p, q), 7 => Exp::BinOp(BinOp::Xor, p, q),
+            8 => Exp::Not(p), 9 => Exp::UnOp(UnOp::Neg, p), 10 => Exp::Iff(q, p), _ => Exp::Implies(q, p),
+        }
+    } else if connective {
         // one connective applied to variable handles directly (the METHOD / operator forms with a bare `Var` receiver), possibly
         // under one more operator; the values below include the rows of the truth table where the connectives differ
         let v = |r: &mut Rng| Box::new(Exp::Variable(r.pick(&names).clone()));
@@ -234,6 +255,7 @@ fn eval_probe(r: &mut Rng) -> Option<Case> {
     c.show = format!("solution.eval({}) at {:?}", e, vals);
     c.tags = vec!["eval-probe".into()];
     if connective { c.tags.push("eval-probe-connective".into()); }
+    if fixed.is_some() { c.tags.push("eval-probe-truth-table".into()); }
     c.nontrivial = true;
     Some(c)
 }
@@ -267,7 +289,7 @@ fn continuous_doors(r: &mut Rng) -> Case {
     }
     let text_model = gen_model::build(m.objective().objective_type.clone(), m.objective().rhs.clone(), m.constraints().clone(), &ds);
     let mut pr = r.fork();
-    let text = Printer { r: &mut pr, sp: Spelling { aliases: false, implicit_mul: r.chance(1, 2), redundant_parens: r.chance(1, 2), named_consts: false }, consts: vec![] }.program(&text_model);
+    let text = Printer { r: &mut pr, sp: Spelling { aliases: false, implicit_mul: r.chance(1, 2), redundant_parens: r.chance(1, 2), named_consts: false, minimal_parens: false }, consts: vec![] }.program(&text_model);
     let guard = |f: &mut dyn FnMut() -> (String, Option<f64>)| -> (String, Option<f64>) {
         std::panic::catch_unwind(std::panic::AssertUnwindSafe(|| f())).unwrap_or(("(panic)".to_string(), None))
     };
@@ -369,7 +391,7 @@ fn one(m: &Model, ds: &[VarDecl], r: &mut Rng, i: usize) -> Vec<Case> {
     }
     // (b) the doors
     let builder_lin = Linearizer::linearize(bm.clone());
-    let sp = Spelling { aliases: r.chance(1, 2), implicit_mul: r.chance(1, 2), redundant_parens: r.chance(1, 2), named_consts: false };
+    let sp = Spelling { aliases: r.chance(1, 2), implicit_mul: r.chance(1, 2), redundant_parens: r.chance(1, 2), named_consts: false, minimal_parens: r.chance(1, 2) };
     let mut pr = r.fork();
     // the text declares every builder variable (also the unused one)
     let text_model = gen_model::build(m.objective().objective_type.clone(), m.objective().rhs.clone(), m.constraints().clone(), ds);
@@ -629,9 +651,11 @@ impl Hist {
             }
         }
     }
-    fn step(&mut self, r: &mut Rng) {
+    fn step(&mut self, r: &mut Rng) { let k = r.below(11); self.step_kind(r, k) }
+    /// 0-2 add_var, 3-4 add_vars, 5-7 with, 8 with_all, 9 maximize / minimize, 10 satisfy
+    fn step_kind(&mut self, r: &mut Rng, kind: usize) {
         let pool = ["x", "y", "z", "x_0", "x_1", "y_1", "w"];
-        match r.below(11) {
+        match kind {
             0..=2 => {
                 let name = r.pick(&pool).to_string();
                 let ty = hist_type(r, self.linear);
@@ -714,13 +738,24 @@ fn random_milp(r: &mut Rng) -> MILPValue {
     match r.below(3) { 0 => MILPValue::Bool(r.chance(1, 2)), 1 => MILPValue::Int(r.range(-4, 9) as i32), _ => MILPValue::Real(r.range(-20, 20) as f64 / 4.0) }
 }
 
-fn history_cases(r: &mut Rng) -> Vec<Case> {
-    let linear = r.chance(2, 5);
+fn history_cases(r: &mut Rng) -> Vec<Case> { history_cases_with(r, None) }
+
+/// `script = Some(k)`: a LINEAR history that ends with a fixed call pattern - objective then `satisfy` / `satisfy` then objective
+/// (the last call must win), `with` then `with_all` and `with_all` then `with` (appending, in call order, repeated names),
+/// two objectives in a row, an `add_vars` family after constraints
+fn history_cases_with(r: &mut Rng, script: Option<usize>) -> Vec<Case> {
+    let linear = script.is_some() || r.chance(2, 5);
     let mut h = Hist { b: ModelBuilder::new(), minted: vec![], ops: vec![], outs: vec![], tags: vec!["history".into()], cnames: vec![], linear, div_by_var: false, abs_cons: vec![], abs_obj: None };
     if linear { h.tag("linear-history"); }
     let span = if r.chance(1, 6) { 24 } else { 9 };
     let n = 2 + r.below(span);
+    if script.is_some() { h.step_kind(r, 0); h.step_kind(r, 3); }
     for _ in 0..n { h.step(r); }
+    if let Some(k) = script {
+        h.tag("scripted-history");
+        let tail: &[usize] = match k % 6 { 0 => &[9, 10], 1 => &[10, 9], 2 => &[5, 8, 8], 3 => &[8, 5, 8], 4 => &[9, 9, 5], _ => &[5, 9, 10, 8] };
+        for kind in tail { h.step_kind(r, *kind); }
+    }
     if h.ops.len() >= 12 { h.tag("long-history"); }
     let model = std::panic::catch_unwind(std::panic::AssertUnwindSafe(|| h.b.clone().into_model()));
     let model_sx = match &model { Ok(m) => sx_rmodel(m), Err(_) => { h.tag("index-panic"); "(index-panic)".to_string() } };
@@ -763,18 +798,8 @@ fn history_cases(r: &mut Rng) -> Vec<Case> {
     c.tags = h.tags.clone();
     c.nontrivial = true;
     c.show = show.clone();
-    let section = if h.linear { "solution" } else { "readback" };
+    let section = "solution";
     match solved {
-        // arbitrary expression trees (several hostile constructs at once): which error the linearizer reports first is C01's
-        // matter; the `solve_with` glue (linearize first, its error wins) is diffed on the linear histories, where the only
-        // non-linear construct is an injected product of variables
-        Ok(Err(_)) if !h.linear => { c.tags.push("not-linearizable-undiffed".into()); c.req = head_req.clone(); c.imp = format!("(ok {})", head_imp); }
-        Ok(_) if h.div_by_var => {
-            // a division by an expression with variables: whether the linearizer reports `NonLinearExpression` or prunes the row
-            // first is the business of C01's model; the `solve_with` glue is not diffed on such a history
-            c.tags.push("solve-diff-skipped-div-by-variable".into());
-            c.req = head_req.clone(); c.imp = format!("(ok {})", head_imp);
-        }
         Ok(Ok(sol)) => {
             c.tags.push("readback-canned".into());
             if q_handles.iter().any(|i| sol.var_value(Var { index: *i }).is_none()) { c.tags.push("var-value-none".into()); }
@@ -822,7 +847,7 @@ fn history_cases(r: &mut Rng) -> Vec<Case> {
             let (ot, oe) = h.abs_obj.clone().unwrap_or((OptimizationType::Satisfy, Exp::Number(0.0)));
             let tm_abs = gen_model::build(ot.clone(), rename(&oe), cons, &ds);
             let mut pr = r.fork();
-            let text = Printer { r: &mut pr, sp: Spelling { aliases: false, implicit_mul: false, redundant_parens: false, named_consts: false }, consts: vec![] }.program(&tm_abs);
+            let text = Printer { r: &mut pr, sp: Spelling { aliases: false, implicit_mul: false, redundant_parens: false, named_consts: false, minimal_parens: false }, consts: vec![] }.program(&tm_abs);
             if let Ok(tm) = RoocParser::new(text.clone()).parse_and_transform(vec![], &IndexMap::new()) {
                 let body = |m: &Model| format!("{} {}", m.constraints().iter().map(sx::constraint).collect::<Vec<_>>().join(" "), strip_usage(&sx::domain(m.domain())));
                 let mut c = Case::default();
@@ -977,10 +1002,17 @@ fn data_doors(r: &mut Rng) -> Case {
     // (an `IntegerRange` bound must be of integer kind: `cap` is then supplied as `Primitive::Integer`, as the literal `4` of the
     // inlined text is; a `Number` there is rejected by the type-checking doors only - C19's matter, not a door disagreement)
     let cap_in_domain = r.chance(1, 2);
-    let api: Vec<(&str, Primitive, String)> = vec![
+    let mut api: Vec<(&str, Primitive, String)> = vec![
         ("cap", if !cap_in_domain && r.chance(1, 2) { Primitive::Number(cap as f64) } else { Primitive::Integer(cap) }, cap.to_string()),
         ("step", Primitive::Number(step as f64), step.to_string()),
     ];
+    // one run in three: a HUGE whole-valued number through the API (a big-M, "no limit"), beyond the i64 range, against a
+    // coefficient of the same magnitude so that it decides the optimum: `scale * y <= big` means `y <= lim`
+    let huge = r.chance(1, 3);
+    let lim = r.range(1, 9);
+    let big: f64 = *r.pick(&[1e20, 9223372036854775808.0, 1.8446744073709552e19, 1e19, 4e18]);
+    let flit = |v: f64| -> String { let t = format!("{}", v); if t.contains('.') || t.contains('e') { t } else { format!("{}.0", t) } };
+    if huge { api.push(("big", Primitive::Number(big), flit(big))); }
     // `where` constants of the text that refer to the API ones (and to each other)
     let derived = match r.below(4) {
         0 => format!("    let total = cap * 2 - {}\n", k),
@@ -991,7 +1023,8 @@ fn data_doors(r: &mut Rng) -> Case {
     // where the constants are used: a right-hand side, a coefficient, a domain bound
     let dom_hi = if cap_in_domain { "cap + 4".to_string() } else { "10".to_string() };
     let obj = match r.below(3) { 0 => "max x + 2 * y", 1 => "max step * x + y", _ => "min x - y" };
-    let body = format!("{}\ns.t.\n    c: x + y <= total\n    d: y <= cap\n", obj);
+    let extra = if huge { format!("    e: {} * y <= big\n", flit(big / lim as f64)) } else { String::new() };
+    let body = format!("{}\ns.t.\n    c: x + y <= total\n    d: y <= cap\n{}", obj, extra);
     let decl = format!("define\n    x as IntegerRange(0, {})\n    y as IntegerRange(0, 10)", dom_hi);
     let text_api = format!("{}where\n{}{}", body, derived, decl);
     let inlined: String = api.iter().map(|(n, _, v)| format!("    let {} = {}\n", n, v)).collect();
@@ -1037,6 +1070,7 @@ fn data_doors(r: &mut Rng) -> Case {
     c.show = format!("API constants cap={:?} step={:?} ; {}", api[0].1, api[1].1, text_api.replace('\n', " ; "));
     c.imp = format!("(data-doors (direct {}) (roocsolver {}) (pipe {}) (inlined {}))", o_direct, o_solver, o_pipe, o_inline);
     c.tags = vec!["data-doors".into(), outcome_class(&o_inline)];
+    if huge { c.tags.push("data-doors-huge-constant".into()); }
     c.nontrivial = o_inline.starts_with("(solution") || o_inline == "(infeasible)";
     let all = [&o_direct, &o_solver, &o_pipe, &o_inline];
     let cls: Vec<String> = all.iter().map(|o| outcome_class(o)).collect();
@@ -1052,6 +1086,96 @@ fn data_doors(r: &mut Rng) -> Case {
             c.oracle = format!("ref {} {}", sx::model(d), if o_inline.starts_with("(solution") { String::new() } else { o_inline.clone() });
             if o_inline.starts_with("(solution") { c.oracle = String::new(); }
         }
+    }
+    c
+}
+
+// ======================================================================================================
+// the builder's SOLVER WRAPPERS: `Microlp::new()` (no explicit gap), `Microlp::new().with_mip_gap(0.0)`, `Auto` and the text
+// door's `solve_milp_lp_problem` must prove the same optimum on a MILP whose near-optimal solutions are close together
+// RELATIVE to the objective (large base values + small bonuses, a cardinality limit, pairwise conflicts: a fractional root
+// LP, so that an early incumbent is not optimal).
+
+const GAP_BLOCK: usize = 32;
+
+struct GapInst { family: usize, n: usize, values: Vec<f64>, k: usize, conflicts: Vec<(usize, usize)>, weights: Vec<i64>, wcap: i64 }
+
+fn gap_instance(r: &mut Rng, family: usize) -> GapInst {
+    // families (rotating): 0 = the five-item shape (cardinality 3, conflict triangle 0-2-4), 1 = 6-8 items, triangle + pairs,
+    // 2 = a weight row instead of the cardinality row (knapsack), 3 = two triangles
+    let n = match family { 0 => 5, 1 => 6 + r.below(3), 2 => 5 + r.below(3), _ => 7 + r.below(2) };
+    let base = *r.pick(&[1000000.0, 2000000.0, 5000000.0, 10000000.0]);
+    // small DISTINCT bonuses
+    let mut bonus: Vec<i64> = vec![];
+    while bonus.len() < n { let b = r.range(1, 40); if !bonus.contains(&b) { bonus.push(b); } }
+    let values: Vec<f64> = bonus.iter().map(|b| base + *b as f64).collect();
+    let k = match family { 0 => 3, _ => 2 + r.below(n - 3) };
+    let mut conflicts: Vec<(usize, usize)> = vec![(0, 2), (0, 4), (2, 4)];
+    if family == 3 { conflicts.extend([(1, 3), (1, 5), (3, 5)]); }
+    if family != 0 { for _ in 0..r.below(3) { let a = r.below(n); let b = r.below(n); if a != b && !conflicts.contains(&(a.min(b), a.max(b))) { conflicts.push((a.min(b), a.max(b))); } } }
+    let weights: Vec<i64> = (0..n).map(|_| r.range(2, 5)).collect();
+    let wcap = weights.iter().sum::<i64>() / 2;
+    GapInst { family, n, values, k, conflicts, weights, wcap }
+}
+
+fn gap_build(g: &GapInst) -> (ModelBuilder, Vec<Var>) {
+    let mut b = ModelBuilder::new();
+    let x = b.add_vars("x", g.n, VariableType::Boolean);
+    let mut b = b.maximize(rooc::builder::sum(x.iter().zip(&g.values).map(|(xi, v)| *v * *xi)));
+    if g.family == 2 { b = b.with(BuilderConstraint::new(rooc::builder::sum(x.iter().zip(&g.weights).map(|(v, w)| (*w as f64) * *v)), Comparison::LessOrEqual, Expr::from(g.wcap as f64), "card".into())); }
+    else { b = b.with(BuilderConstraint::new(rooc::builder::sum(x.iter().map(|v| Expr::from(*v))), Comparison::LessOrEqual, Expr::from(g.k as f64), "card".into())); }
+    for (a, c) in &g.conflicts { b = b.with(BuilderConstraint::new(x[*a] + x[*c], Comparison::LessOrEqual, Expr::from(1.0), String::new())); }
+    (b, x)
+}
+
+fn gap_doors(r: &mut Rng, k_index: usize) -> Case {
+    use rooc::Microlp;
+    // GAP-SENSITIVE instances by construction: a candidate is kept only if microlp with an EXPLICIT relative gap of 1e-4
+    // (`with_mip_gap(1e-4)`, a legitimate setting on the unchanged code) stops at an incumbent that is NOT the optimum the exact
+    // search proves - i.e. the 1e-4 gap provably admits a non-optimal solution that microlp's search order returns first.
+    // A wrapper that silently applies such a gap by default is then caught on every one of them.
+    let family = k_index % 4;
+    let solve = |g: &GapInst, gap: f64| -> Option<f64> { std::panic::catch_unwind(std::panic::AssertUnwindSafe(|| gap_build(g).0.solve_with(Microlp::new().with_mip_gap(gap)).ok().map(|s| s.value()))).ok().flatten() };
+    let mut g = gap_instance(r, family);
+    let mut sensitive = false;
+    for _ in 0..80 {
+        if let (Some(a), Some(b)) = (solve(&g, 1e-4), solve(&g, 0.0)) { if (a - b).abs() > 0.5 { sensitive = true; break; } }
+        let f2 = if family == 2 && r.chance(1, 2) { 0 } else { family };
+        g = gap_instance(r, f2);
+    }
+    let (family, n, k) = (g.family, g.n, g.k);
+    let (values, conflicts, weights, wcap) = (g.values.clone(), g.conflicts.clone(), g.weights.clone(), g.wcap);
+    let build = || gap_build(&g);
+    let text = format!("max {}\ns.t.\n    card: {} <= {}\n{}define\n    {} as Boolean",
+        (0..n).map(|i| format!("{} * x_{}", values[i] as i64, i)).collect::<Vec<_>>().join(" + "),
+        if family == 2 { (0..n).map(|i| format!("{} * x_{}", weights[i], i)).collect::<Vec<_>>().join(" + ") } else { (0..n).map(|i| format!("x_{}", i)).collect::<Vec<_>>().join(" + ") }, if family == 2 { wcap as usize } else { k },
+        conflicts.iter().map(|(a, c)| format!("    x_{} + x_{} <= 1\n", a, c)).collect::<String>(),
+        (0..n).map(|i| format!("x_{}", i)).collect::<Vec<_>>().join(", "));
+    let run = |f: &mut dyn FnMut() -> Result<f64, String>| -> Result<f64, String> { std::panic::catch_unwind(std::panic::AssertUnwindSafe(|| f())).unwrap_or(Err("(panic)".into())) };
+    let berr = |e: BuilderError| match e { BuilderError::Solver(e) => solver_error(&e), BuilderError::Linearization(e) => crate::props::c01::lin_error(&e) };
+    let mut ref_outcome = String::new();
+    let o_default = run(&mut || { let (b, x) = build(); b.solve_with(Microlp::new()).map(|s| {
+        let asg = x.iter().enumerate().map(|(i, v)| format!("({} {})", sx::q(&format!("x_{}", i)), sx::num(s.numeric_value(*v).unwrap_or(f64::NAN)))).collect::<Vec<_>>().join(" ");
+        ref_outcome = format!("(solution {} (assign {}))", sx::num(s.value()), asg);
+        s.value() }).map_err(berr) });
+    let o_exact = run(&mut || build().0.solve_with(Microlp::new().with_mip_gap(0.0)).map(|s| s.value()).map_err(berr));
+    let o_auto = run(&mut || build().0.solve_with(Auto).map(|s| s.value()).map_err(berr));
+    let o_text = run(&mut || match RoocSolver::try_new(text.clone()) { Err(e) => Err(format!("(parse {:?})", e).chars().take(60).collect()), Ok(s) => match s.solve_using(rooc::solve_milp_lp_problem) {
+        Ok(sol) => Ok(sol.value()), Err(RoocSolverError::Solver(e)) => Err(solver_error(&e)), Err(_) => Err("(compile-error)".into()) } });
+    let mut c = Case::default();
+    c.show = text.replace('\n', " ; ");
+    c.imp = format!("(gap-doors (microlp-default {:?}) (microlp-gap0 {:?}) (auto {:?}) (text-milp {:?}))", o_default, o_exact, o_auto, o_text);
+    c.tags = vec!["gap-doors".into(), format!("gap-family-{}", family)];
+    if sensitive { c.tags.push("gap-sensitive".into()); }
+    c.nontrivial = o_default.is_ok();
+    let all = [&o_default, &o_exact, &o_auto, &o_text];
+    match &o_text {
+        Ok(v) => { if all.iter().any(|o| match o { Ok(w) => (w - v).abs() > 1e-6, Err(_) => true }) { c.impl_violation = Some(format!("the builder's solver wrappers and the text door disagree on the optimum: {}", c.imp)); } }
+        Err(e) => { if all.iter().any(|o| match o { Err(f) => f != e, Ok(_) => true }) { c.impl_violation = Some(format!("the builder's solver wrappers and the text door disagree on the verdict: {}", c.imp)); } }
+    }
+    // the default wrapper's answer is also judged by the reference interpreter (2^n points)
+    if !ref_outcome.is_empty() {
+        if let Ok(tm) = RoocParser::new(text.clone()).parse_and_transform(vec![], &IndexMap::new()) { c.oracle = format!("ref {} {}", sx::model(&tm), ref_outcome); }
     }
     c
 }
